@@ -174,6 +174,20 @@ def write(path, m, tri='L', extra=False):
             chunk = cols[a:a + 3]
             L.append(' %5d %5d' % (i + 1, chunk[0] + 1) + ''.join(' %21.14e' % Q[i, j] for j in chunk))
     L += ['-SOLUTION/MATRIX_ESTIMATE %s COVA' % tri, '%ENDSNX']
+    # comment lines are optional everywhere in SINEX: 'none' writes the data blocks without their column-header comments,
+    # 'double' with a second comment line under each of them (producers differ)
+    cm = m.get('comments')
+    if cm == 'none':
+        keep_until = L.index('-FILE/COMMENT')
+        L = [ln for i, ln in enumerate(L) if i <= keep_until or not ln.startswith('*') or ln == SEP]
+    elif cm == 'double':
+        L2 = []
+        keep_until = L.index('-FILE/COMMENT')
+        for i, ln in enumerate(L):
+            L2.append(ln)
+            if i > keep_until and ln.startswith('*') and ln != SEP:
+                L2.append('* (units: metres, metres / year; epochs YY:DDD:SSSSS)')
+        L = L2
     with open(path, 'w') as f:
         f.write('\n'.join(L) + '\n')
     return L
